@@ -125,7 +125,7 @@ func points() []point {
 			}
 		}},
 		{"ClientInfo.Unmarshal", "binary", hxs(testdata.MarshaledPAC_Client_Info), func(b []byte) { var v pac.ClientInfo; v.Unmarshal(b) }},
-		{"UPNDNSInfo.Unmarshal", "binary", hxs(testdata.MarshaledPAC_UPN_DNS_Info), func(b []byte) { var v pac.UPNDNSInfo; v.Unmarshal(b) }},
+		{"UPNDNSInfo.Unmarshal", "binary", append(hxs(testdata.MarshaledPAC_UPN_DNS_Info), upnDNSInfoBeyond64K()), func(b []byte) { var v pac.UPNDNSInfo; v.Unmarshal(b) }},
 		{"SignatureData.Unmarshal", "binary", hxs(testdata.MarshaledPAC_Server_Signature, testdata.MarshaledPAC_KDC_Signature), func(b []byte) { var v pac.SignatureData; v.Unmarshal(b) }},
 		{"ClientClaimsInfo.Unmarshal", "binary", hxs(testdata.MarshaledPAC_ClientClaimsInfoStr, testdata.MarshaledPAC_ClientClaimsInfoInt, testdata.MarshaledPAC_ClientClaimsInfoMulti, testdata.MarshaledPAC_ClientClaimsInfoMultiUint, testdata.MarshaledPAC_ClientClaimsInfoMultiStr, testdata.MarshaledPAC_ClientClaimsInfo_XPRESS_HUFF), func(b []byte) { var v pac.ClientClaimsInfo; v.Unmarshal(b) }},
 		{"S4UDelegationInfo.Unmarshal", "binary", hxs(testdata.MarshaledPAC_Kerb_Validation_Info), func(b []byte) { var v pac.S4UDelegationInfo; v.Unmarshal(b) }},
@@ -419,4 +419,23 @@ func pacCredentialsInfo() []byte {
 		panic("pacCredentialsInfo: " + err.Error())
 	}
 	return append([]byte{0, 0, 0, 0, 18, 0, 0, 0}, ct...)
+}
+
+// upnDNSInfoBeyond64K is a UPN_DNS_INFO buffer of 66 KiB whose UPN sits just below offset 65536
+// (offset + length do not fit 16 bits) and whose DNS name follows the header: valid, and large
+// enough for 16-bit arithmetic on the offsets to go wrong.
+func upnDNSInfoBeyond64K() []byte {
+	b := make([]byte, 66*1024)
+	le := func(off int, v uint16) { b[off], b[off+1] = byte(v), byte(v>>8) }
+	le(0, 0x20)   // UPN length
+	le(2, 0xfff0) // UPN offset
+	le(4, 0x10)   // DNS domain name length
+	le(6, 0x10)   // DNS domain name offset
+	for i, c := range "test.gok" {
+		le(0x10+2*i, uint16(c))
+	}
+	for i, c := range "user@test.gokrb5" {
+		le(0xfff0+2*i, uint16(c))
+	}
+	return b
 }
